@@ -830,10 +830,14 @@ struct Extractor : public RecursiveASTVisitor<Extractor> {
     json::Array bases, fields, methods;
     for (const CXXBaseSpecifier& B : RD->bases())
       if (const CXXRecordDecl* BD = B.getType()->getAsCXXRecordDecl()) bases.push_back(qualName(BD));
-    for (const FieldDecl* F : RD->fields())
-      fields.push_back(json::Object{{"n", qualName(F)}, {"ty", typeStr(F->getType())},
-                                    {"tk", typeKind(F->getType())},
-                                    {"access", (int64_t)F->getAccess()}});
+    for (const FieldDecl* F : RD->fields()) {
+      json::Object fo{{"n", qualName(F)}, {"ty", typeStr(F->getType())},
+                      {"tk", typeKind(F->getType())},
+                      {"access", (int64_t)F->getAccess()}};
+      if (F->hasInClassInitializer() && F->getInClassInitializer())
+        fo["init"] = desc(F->getInClassInitializer(), 1);      // default member initialiser
+      fields.push_back(std::move(fo));
+    }
     for (const CXXMethodDecl* M : RD->methods()) {
       if (M->isImplicit()) continue;
       json::Object mo{{"id", funcId(M)}, {"name", funcName(M)}};
